@@ -1,6 +1,7 @@
 package checks
 
 import (
+	"bytes"
 	"fmt"
 	"io"
 	"os"
@@ -195,8 +196,48 @@ func (t *c03ReaderTpl) Contents() io.Reader {
 		return iotest.DataErrReader(iotest.OneByteReader(r))
 	case 5:
 		return &c03ZeroReader{r: r}
+	case 6, 7, 8:
+		// seekable readers that the host has already advanced past a header (front matter): the template is what
+		// the reader still has to deliver
+		header := "---\ntitle: {{ not template code }}\n---\n"
+		switch t.behaviour {
+		case 6:
+			sr := strings.NewReader(header + t.src)
+			sr.Seek(int64(len(header)), io.SeekStart)
+			return sr
+		case 7:
+			br := bytes.NewReader([]byte(header + t.src))
+			io.CopyN(io.Discard, br, int64(len(header)))
+			return br
+		default:
+			dir := core.WorkDir
+			if dir == "" {
+				dir = os.TempDir()
+			}
+			path := filepath.Join(dir, "c03seek.twig")
+			if os.WriteFile(path, []byte(header+t.src), 0o644) != nil {
+				return r
+			}
+			f, err := os.Open(path)
+			if err != nil {
+				return r
+			}
+			f.Seek(int64(len(header)), io.SeekStart)
+			return &c03ClosingFile{f}
+		}
 	}
 	return r
+}
+
+// c03ClosingFile closes the file when it has been read to the end (the harness must not leak descriptors either).
+type c03ClosingFile struct{ *os.File }
+
+func (c *c03ClosingFile) Read(p []byte) (int, error) {
+	n, err := c.File.Read(p)
+	if err != nil {
+		c.File.Close()
+	}
+	return n, err
 }
 
 // c03ZeroReader returns (0, nil) on every other call, which io.Reader permits.
@@ -220,7 +261,7 @@ func (l *c03ReaderLoader) Load(name string) (stick.Template, error) {
 	return &c03ReaderTpl{name, l.behaviour}, nil
 }
 
-const c03ReaderBehaviours = 5
+const c03ReaderBehaviours = 8
 
 func c03Run(c core.Case) core.Result {
 	env := c03Env()
@@ -382,7 +423,7 @@ func c03Levels(tier string) []core.Level {
 			}
 			with(core.Case{Fam: "text", Src: strings.Repeat("long text ", 500), Exp: strings.Repeat("long text ", 500)})
 		}},
-		{Name: "reader behaviours: every sequence of <= 3 chunks and every leaf pair, delivered by a reader that returns one byte at a time / its last data together with io.EOF / half of what is asked / both / (0, nil) on every other call", Gen: func(emit func(core.Case)) {
+		{Name: "reader behaviours: every sequence of <= 3 chunks and every leaf pair, delivered by a reader that returns one byte at a time / its last data together with io.EOF / half of what is asked / both / (0, nil) on every other call / a seekable reader (*strings.Reader, *bytes.Reader, *os.File) that the host has advanced past a header", Gen: func(emit func(core.Case)) {
 			with := func(c core.Case) {
 				for b := 1; b <= c03ReaderBehaviours; b++ {
 					c2 := c
